@@ -2,7 +2,7 @@
 # Targets: build/<name>.<variant>   (source: harness/<name>.cpp)
 REPO ?= /repo
 INC  := $(REPO)/Include
-HDRS := $(wildcard $(INC)/*.hpp) harness/common.hpp
+HDRS := $(wildcard $(INC)/*.hpp) $(wildcard harness/*.hpp) build/headers.sha
 GUARD := -DQENTEM_VERIF=1
 CXXSTD := -std=c++17
 WARN := -w
@@ -10,6 +10,10 @@ GXX ?= g++
 CLANGXX ?= clang++
 COMMON := $(CXXSTD) $(WARN) -fno-exceptions -I$(INC) -Iharness $(GUARD)
 SAN := -fsanitize=address,undefined -fno-sanitize=alignment,function,vptr -fno-sanitize-recover=all -fno-omit-frame-pointer -g -O1
+
+build/headers.sha:
+	@mkdir -p build
+	@touch $@
 
 build/%.plain: harness/%.cpp $(HDRS)
 	@mkdir -p build
